@@ -28,7 +28,10 @@ package ircserver
 
 // allocated(x): x is an object that exists in the current heap (true of every reference a Go program can hold;
 // stated so that freshly allocated objects are known to differ from the ones the maps hold).
-//@ pred wfSessions(i *IRCServer) = i.sessions != nil && (forall id robust.Id :: id in i.sessions ==> i.sessions[id] != nil && allocated(i.sessions[id]) && i.sessions[id].Id == id && i.sessions[id].Channels != nil && allocated(i.sessions[id].Channels) && i.sessions[id].invitedTo != nil && allocated(i.sessions[id].invitedTo)) && (forall a robust.Id, b robust.Id :: a in i.sessions && b in i.sessions ==> i.sessions[a].Channels != i.sessions[b].invitedTo && (a != b ==> i.sessions[a].Channels != i.sessions[b].Channels))
+//@ pred sessShape(i *IRCServer) = i.sessions != nil && (forall id robust.Id :: id in i.sessions ==> i.sessions[id] != nil && allocated(i.sessions[id]) && i.sessions[id].Id == id && i.sessions[id].Channels != nil && allocated(i.sessions[id].Channels) && i.sessions[id].invitedTo != nil && allocated(i.sessions[id].invitedTo))
+// the membership and invitation maps of the sessions are pairwise distinct objects
+//@ pred sessSep(i *IRCServer) = (forall a robust.Id, b robust.Id {i.sessions[a].Channels, i.sessions[b].invitedTo} :: a in i.sessions && b in i.sessions ==> i.sessions[a].Channels != i.sessions[b].invitedTo) && (forall a robust.Id, b robust.Id {i.sessions[a].Channels, i.sessions[b].Channels} :: a in i.sessions && b in i.sessions && a != b ==> i.sessions[a].Channels != i.sessions[b].Channels)
+//@ pred wfSessions(i *IRCServer) = sessShape(i) && sessSep(i)
 //@ pred wfNicks(i *IRCServer) = i.nicks != nil && (forall n lcNick :: n in i.nicks ==> i.nicks[n] != nil && allocated(i.nicks[n]) && i.nicks[n].Id in i.sessions && i.sessions[i.nicks[n].Id] == i.nicks[n] && NickToLower(i.nicks[n].Nick) == n && i.nicks[n].Nick != "" && !i.nicks[n].deleted)
 // symmetric membership, one direction: a live session that lists a channel is listed by that channel
 // (the other direction is in wfChannels: every member is an owned nickname)
@@ -203,18 +206,17 @@ package ircserver
 // Removes the channel from the index when its last member is gone, together
 // with the invitations that name it. Nothing else changes.
 //@ func IRCServer.maybeDeleteChannelLocked
-//@   requires i != nil && wfSessions(i) && i.channels != nil && c != nil
+//@   requires i != nil && sessShape(i) && i.channels != nil && c != nil
 //@   ensures kept: (exists n lcNick :: n in c.nicks) ==> (forall ch lcChan :: ch in i.channels <==> old(ch in i.channels))
 //@   ensures removed: !(exists n lcNick :: n in c.nicks) ==> !(ChanToLower(c.name) in i.channels) && (forall ch lcChan :: ch != ChanToLower(c.name) ==> (ch in i.channels <==> old(ch in i.channels)))
 //@   ensures vals: forall ch lcChan :: ch in i.channels ==> i.channels[ch] == old(i.channels[ch])
-//@   ensures sessions: wfSessions(i)
 //@   ensures onlyremoves: forall m map[lcChan]bool, k lcChan :: k in m ==> old(k in m)
-//@   ensures channelskept: forall id robust.Id, k lcChan :: id in i.sessions && old(k in i.sessions[id].Channels) ==> k in i.sessions[id].Channels
+//@   ensures onlythatkey: forall m map[lcChan]bool, k lcChan :: old(k in m) && (k != ChanToLower(c.name) || (exists n lcNick :: n in c.nicks)) ==> k in m
 //@   modifies map[i.channels], maptype(map[lcChan]bool)
 //@   loop range i.sessions
-//@     invariant wfSessions(i)
+//@     invariant sessShape(i)
 //@     invariant forall m map[lcChan]bool, k lcChan :: k in m ==> old(k in m)
-//@     invariant forall id robust.Id, k lcChan :: id in i.sessions && old(k in i.sessions[id].Channels) ==> k in i.sessions[id].Channels
+//@     invariant forall m map[lcChan]bool, k lcChan :: old(k in m) && k != ChanToLower(c.name) ==> k in m
 
 // End of a session (QUIT, KILL, ban, expiry, DELETE): its nickname is free and
 // it is on no channel any more; the Session object itself stays in
@@ -236,8 +238,12 @@ package ircserver
 //@   ensures member: wfMember(i)
 //@   ensures owner: wfOwner(i)
 //@   modifies map[i.nicks], map[i.channels], maptype(map[lcChan]bool), maptype(map[lcNick]*[2]bool), Session.deleted[s]
+// proof steps for "no channel is left empty" (the channel just visited is either non-empty or gone; all others are untouched)
+//@   assert@after maybeDeleteChannelLocked#0 : visited: ChanToLower(c.name) in i.channels ==> (exists n lcNick :: n in c.nicks)
+//@   assert@after maybeDeleteChannelLocked#0 : others: forall ch lcChan :: ch in i.channels && i.channels[ch] != c ==> (exists n lcNick :: n in i.channels[ch].nicks)
+//@   assert@after maybeDeleteChannelLocked#0 : key: forall ch lcChan :: ch in i.channels && i.channels[ch] == c ==> ch == ChanToLower(c.name)
 //@   loop range i.channels
-//@     invariant wfBase(i) && wfSessions(i) && !s.deleted
+//@     invariant wfBase(i) && sessShape(i) && !s.deleted
 //@     invariant wfNicks(i)
 //@     invariant chanShape(i)
 //@     invariant chanMembers(i)
@@ -449,7 +455,7 @@ package ircserver
 // NICK: the membership of every channel is renamed from the old to the new
 // lower-case nickname. While the loop runs, channels not yet visited still
 // list the old name (which is no longer owned), visited ones list the new one.
-//@ pred chanShape(i *IRCServer) = i.channels != nil && (forall ch lcChan :: ch in i.channels ==> i.channels[ch] != nil && allocated(i.channels[ch]) && i.channels[ch].nicks != nil && allocated(i.channels[ch].nicks) && ChanToLower(i.channels[ch].name) == ch && bansOK(i.channels[ch])) && (forall a lcChan, b lcChan :: a in i.channels && b in i.channels && a != b ==> i.channels[a].nicks != i.channels[b].nicks)
+//@ pred chanShape(i *IRCServer) = i.channels != nil && (forall ch lcChan :: ch in i.channels ==> i.channels[ch] != nil && allocated(i.channels[ch]) && i.channels[ch].nicks != nil && allocated(i.channels[ch].nicks) && ChanToLower(i.channels[ch].name) == ch && bansOK(i.channels[ch])) && (forall a lcChan, b lcChan {i.channels[a].nicks, i.channels[b].nicks} :: a in i.channels && b in i.channels && a != b ==> i.channels[a].nicks != i.channels[b].nicks)
 //@ func IRCServer.cmdNick
 //@   requires api: s.Id.Reply == 0
 //@   loop range i.channels
